@@ -34,8 +34,8 @@ Dunder(name) == Len(name) >= 2 /\ SubSeq(name, 1, 2) = "__"
 \* type references: module TypeAlgebra (TypeStr, BaseName)
 TypeName(t) == BaseName(t)
 
-OutputKinds == {"SCALAR", "OBJECT", "INTERFACE", "UNION", "ENUM"}
-InputKinds  == {"SCALAR", "ENUM", "INPUT_OBJECT"}
+OutputKinds == {k \in Kinds : IsOutputKind(k)}
+InputKinds  == {k \in Kinds : IsInputKind(k)}
 
 -----------------------------------------------------------------------------
 (* Merge: one record per type name.                                        *)
